@@ -30,7 +30,8 @@ PROPS = {
         "rule": "one run = one seeded tape: 1-3 atoms holding lists of unique tokens, 2-5 simulated caller threads x 1-6 operations from 21 kinds (deref in both forms, reset!, "
                 "swap! with pure, wide, builtin, extra-argument (1 and 3 extra arguments), always-failing, late-failing, value-dependent failing (bounded), type-error, atom-reading, "
                 "self-reading and other-atom-updating/resetting update functions, swap! inside let, some wrapped in futures, plus gensym and memoize), every atom access - also the ones "
-                "nested inside update functions - recorded as an operation. Scheduling: seeded quantum walk, PCT (depth 1-3) or starvation, at evaluation steps, statement-level yields "
+                "nested inside update functions - recorded as an operation; memoize histories additionally require that a call invoked after an earlier call with the same argument returned "
+                "does not compute again. Scheduling: seeded quantum walk, PCT (depth 1-3) or starvation, at evaluation steps, statement-level yields "
                 "inserted into lib/concurrent/concurrent.go, lock acquisitions (with RWMutex writer preference emulated) and the swap! read/apply/retry windows. "
                 "non-trivial = at least 2 tasks, more than one token switch and at least one preemption inside a named or auto-inserted window; "
                 "distinct = distinct hash of the sequence of (task, hook point) pairs at which the token changed hands",
@@ -49,9 +50,10 @@ PROPS = {
                       "and event stamps only, data races by the Go race detector on the same tapes.",
         "level_note": "Trusts the simulator, the synctest clock and ThreadSanitizer; 'completed' is defined from observable events only (body thread ended, an outcome-returning deref or a true future-done? returned earlier).",
         "rule": "one run = one seeded tape: a creator thread defines 1-2 futures (body: value, nil, false, collection, throw, failing builtin, context-aware gate, context-ignoring gate, "
-                "gate then throw, sleep, busy loop, future-call of a fn, nested future, deref of the other future; in a third of the two-future runs the second future is started by the first "
+                "gate then throw, sleep, busy loop, future-call of a fn, nested future, deref of the other future, bodies that wait or sleep inside a try whose handler returns; in a third of the two-future runs the second future is started by the first "
                 "one's body and outlives it), 1-4 caller threads x 1-5 operations (deref with/without deadline, future-done?, future-cancelled?, future-cancel, naps), a gatekeeper opening "
-                "gates at scheduler-chosen instants, optionally a deadline on the creator's context; step cost 0, 1us or 50us. Oracles: obligations O1-O6 over the history, a deref's wake-up "
+                "gates at scheduler-chosen instants, in a quarter of the runs a deadline on the creator's context, sometimes one that has already passed when the future is created; code that "
+                "uses TryLock is run in contention mode (another thread is parked holding the lock when the attempt is made); step cost 0, 1us or 50us. Oracles: obligations O1-O6 over the history, a deref's wake-up "
                 "instant against its deadline, and the whole status history against a sequential specification with porcupine. "
                 "non-trivial = at least 3 tasks, more than two token switches and at least one preemption inside a future.* window or one wake-up from a real blocking deref/sleep; "
                 "distinct = distinct hash of the sequence of (task, hook point) pairs at which the token changed hands",
@@ -70,9 +72,10 @@ PROPS = {
                       "prepared fresh environment (refinement), probes check that no local name is visible at top level, readers check all-or-nothing monotone visibility "
                       "of a redefined global, and the Go race detector runs on the same tapes for the no-data-race clause.",
         "level_note": "Trusts the simulator and ThreadSanitizer; the solo run is the reference (it is the same interpreter); env critical sections are atomic in the simulation, their absence is a matter for the race oracle.",
-        "rule": "one run = one seeded tape: 2-5 programs of 2-5 fragments drawn from 49 templates (let, shadowing, tail/non-tail recursion under thread-specific global names, "
+        "rule": "one run = one seeded tape: 2-5 programs of 2-5 fragments drawn from 54 templates (let, shadowing, tail/non-tail recursion under thread-specific global names, "
                 "closures over local atoms, own and library macros, memoize, try/catch, defs, def inside thunks and future bodies, derivation from shared vector/map/list/closure/macro, "
-                "map/apply/reduce/update-in, futures incl. ones started in a non-final let binding, gensym names used as private globals, a local helper defined after a future was started), "
+                "map/apply/reduce/update-in, futures incl. ones started in a non-final let binding, gensym names used as private globals, a local helper defined after a future was started, rest lists of variadic callbacks that outlive map, memoized closures with the "
+                "same text and different captured values in every thread, a global redefined from its own value), "
                 "same local names in every thread with thread-specific values; optional writer redefining g through 2-6 distinct structured values with 1-2 readers; optional prober "
                 "reading local and temporary names at top level. Statement-level yields in lib/concurrent/concurrent.go and env/env.go. "
                 "non-trivial = at least 2 tasks and at least 4 token switches; distinct = distinct hash of the (task, hook point) switch sequence",
@@ -92,7 +95,8 @@ PROPS = {
         "rule": "one run = one seeded tape: 15 seed values (reader-built vector and quoted list, conj/range results with spare capacity, nested maps and vectors, sets, vec of a quoted list, "
                 "empty vector and list, drained vectors that keep capacity) and 3-40 operations from 54 kinds (conj, concat incl. empty leading arguments, cons, assoc, dissoc incl. several keys "
                 "with absent ones, subvec, rest, vec, seq, take/drop families, merge, rename-keys, with-meta, assoc-in/update/update-in through maps, vectors and mixed nesting, apply, map, "
-                "quasiquote splices, closures, macros, catch/let variables named like pool values, variadic callbacks that retain their rest list inside map/apply/reduce), parents chosen with a bias "
+                "quasiquote splices, closures, macros, catch/let variables named like pool values, variadic callbacks that retain their rest list inside map/apply/reduce, closures made under apply/map/swap! that outlive the call, error objects wrapping a pool map turned into "
+                "hash-maps), parents chosen with a bias "
                 "to re-extend the previous parent. Oracles: snapshot of every value re-read after every operation; prefix stability of snapshots taken inside callbacks; race detector. "
                 "non-trivial = some parent extended at least twice; distinct = distinct (operation sequence, interleaving) hash",
         "assumptions": COMMON_ASSUMPTIONS + ["registration-time mutation of _PACKAGES_ by call.Call is outside the statement (not a builtin, special form, macro expansion or splice)"],
@@ -105,17 +109,19 @@ PROPS = {
         "design_ref": "DESIGN.md §5.4",
         "technique": "deterministic simulation: fake clock, cancellation injected at any step or instant into generated non-terminating programs; bounded-steps-after-cancel invariant",
         "level_text": "Seeded search over (program shape, cancellation kind, cancellation instant): non-terminating programs from a grammar covering every construct the statement "
-                      "names run on the synctest fake clock with a simulated cost per evaluation step; the context ends by deadline, by cancel() at a drawn step, through a parent "
+                      "names run on the synctest fake clock with a simulated cost per evaluation step and per iteration of a Go-level loop in mal.go, lib/core and types; the context ends by deadline, by cancel() at a drawn step, through a parent "
                       "context or before entry. Invariant: at most B = 200 + 20*(AST nodes) evaluation steps of the calling thread and (B+10) step costs of simulated time after "
-                      "the context ended; try-free programs return a timeout error; a timeout inside a try body under a deadline is caught and the handler runs once.",
-        "level_note": "Trusts the simulator and the synctest clock. Builtins see small data only. A future body that keeps running after EVAL returned is reported as a probe, not judged.",
-        "rule": "one run = one seeded tape: a program drawn from the grammar (18 endless leaves: tail / non-tail / macro recursion, cond, and/or, ->, loops whose iterations mention only symbols "
+                      "the context ended; try-free programs return a timeout error; a timeout inside a try body under a deadline is caught and the handler runs once; in single-threaded runs the heap "
+                      "allocation between the end of the context and EVAL's return stays within 2 MiB + 2 KiB per step after + 256 B per step before (work that costs no evaluation step).",
+        "level_note": "Trusts the simulator and the synctest clock. Allocation is read from runtime.MemStats (process-wide, hence judged only when the calling thread is the run's only thread). Builtins see small data only. A future body that keeps running after EVAL returned is reported as a probe, not judged.",
+        "rule": "one run = one seeded tape: a program drawn from the grammar (22 endless leaves: tail / non-tail / macro recursion, cond, and/or, ->, loops whose iterations mention only symbols "
                 "and constants, sleeping loop, long sleep, swap! loop, apply, deref of a body ignoring cancellation, deref of a pending future shared with a body started by an earlier evaluation "
                 "under an unrelated context; wrapped in map/reduce/swap!/update callbacks, eval, future deref, do/let/if, try/catch/finally nests to depth 4 whose handlers and finally bodies loop, "
-                "sleep, return, rethrow; plus handler and finally probes), a step cost of 1us..1ms with optional jitter, and a cancellation (kind x instant, log-uniform up to ~32k steps). "
+                "sleep, return, rethrow; plus handler and finally probes, programs that dereference cancelled futures, bursts of ~300 futures, and non-tail recursions that are thousands of frames "
+                "deep when the context ends), a step cost of 1us..1ms with optional jitter, and a cancellation (kind x instant, log-uniform up to ~32k steps). "
                 "non-trivial = the context ended while the program was running; distinct = distinct (program text, cancellation kind, instant, interleaving) hash",
         "assumptions": COMMON_ASSUMPTIONS + ["the word 'timeout' in the error message identifies a timeout error"],
-        "must_hit": ["fault:deadline", "fault:cancel-at-step", "fault:parent-cancel-at-step", "fault:ended-at-entry", "fault:deadline-parent", "wake:sleep.ctx", "wake:future.deref.ctx", "handler_probe_ok", "shape:try", "shape:macro", "shape:tail-noargs", "shape:deref-shared-pending", "shape:eval", "shape:background-env-writer", "finally_probe_ok"],
+        "must_hit": ["fault:deadline", "fault:cancel-at-step", "fault:parent-cancel-at-step", "fault:ended-at-entry", "fault:deadline-parent", "wake:sleep.ctx", "wake:future.deref.ctx", "handler_probe_ok", "shape:try", "shape:macro", "shape:tail-noargs", "shape:deref-shared-pending", "shape:eval", "shape:background-env-writer", "finally_probe_ok", "probe:deep-dive-unwound-after-cancellation", "alloc_after_cancel_judged"],
         "race": False,
     },
     "C03": {
@@ -146,13 +152,14 @@ PROPS = {
                       "same program run without a stepper in an identically prepared environment; every (form, scope) handed to the callback is compared with the evaluation step "
                       "that follows. Now and then all command sequences up to length 4 (thorough: 5) are enumerated for the program at hand.",
         "level_note": "Trusts the stepper-less run as reference (same interpreter). No scheduler and no clock are involved: the simulated party is the debugger. Single-threaded: no race binary.",
-        "rule": "one run = one seeded program (try-nest with 0-1 injected builtin failure, or 1-3 of 43 templates incl. error-inspecting handlers, uncaught errors, map/vector literals with one "
-                "effect, forms longer than ten items) x one seeded command tape of up to 120 commands with a drawn bias and tail command, x one run under the debugger package's own engine in "
+        "rule": "one run = one seeded program (try-nest with 0-1 injected builtin failure - including the budget timeout of a try body under a one-hour simulated deadline -, or 1-3 of 55 templates incl. "
+                "error-inspecting handlers, uncaught errors, map/vector literals with one effect, forms longer than ten items, evaluator panics that cross map/apply/reduce/swap! before they reach try, a "
+                "tail loop of ~4000 iterations) x one seeded command tape of up to 120 commands with a drawn bias and tail command, x one run under the debugger package's own engine in "
                 "its headless run-and-trace mode, followed by a stepper-less re-run of the same source; about one run in twelve additionally enumerates every command sequence of length <= 4 "
                 "(thorough: 5). Compared: result, error text with position, trace, and every (form, scope) handed to the callback with the evaluation step that follows. "
                 "evaluations counts runs; stepper_runs counts executions with a scripted stepper. "
                 "non-trivial = the callback was consulted and at least one command was drawn; distinct = distinct (program, fault plan, command tape) hash",
-        "assumptions": COMMON_ASSUMPTIONS[:1] + ["ANSWER:/ERROR: lines printed by the evaluator on 'next' are debugger output, not program effects (stdout is redirected)", "programs terminate within the host stack (recursion depth <= 50)"],
+        "assumptions": COMMON_ASSUMPTIONS[:1] + ["ANSWER:/ERROR: lines printed by the evaluator on 'next' are debugger output, not program effects (stdout is redirected)", "programs terminate within the host stack (non-tail recursion depth <= 50)"],
         "must_hit": ["fault:stepper-next", "fault:stepper-in", "fault:stepper-out", "exhaustive_prefix_enumerations", "shipped_debugger_runs"],
         "race": False,
     },
